@@ -315,7 +315,23 @@ def F1(ctx: Ctx) -> RuleResult:
     single('field_access', Expect('HplFieldAccess', message=m_cast(C(0), _is_type(ctx, 'MESSAGE'), 'MESSAGE'), field=C(1)))
     single('array_access', Expect('HplArrayAccess', array=m_cast(C(0), _is_type(ctx, 'ARRAY'), 'ARRAY'), index=m_cast(C(1), _is_type(ctx, 'NUMBER'), 'NUMBER')))
     # --- literals
-    single('number_constant', Expect('HplLiteral', token=C(0), value=Attr(Sub(ClassRef('NumberConstants'), C(0)), 'value')))
+    def constant_value(t):
+        want = Attr(Sub(ClassRef('NumberConstants'), C(0)), 'value')
+        if t == want:
+            return None
+        # a table derived from the enumeration (read through by the evaluator): member by member the same value
+        from .terms import eval_bool
+        nc = ctx.model.cls('NumberConstants', 'F1')
+        ev2 = parser_eval(ctx)
+        alts = list(alternatives(t))
+        for mname, node in nc.enum_members.items():
+            exp_v = ev2.expr(node, _State(), nc.module, None, 0)
+            known = {Op('==', (C(0), Const(k))): (k == mname) for k in nc.enum_members}
+            hit = [leaf for g, leaf in alts if all(eval_bool(gt, known) == pol for gt, pol in g)]
+            if len(hit) != 1 or hit[0] != exp_v:
+                return f'expected NumberConstants[c0].value; for {mname} found {hit!r}, the member is {exp_v!r}'
+        return None
+    single('number_constant', Expect('HplLiteral', token=C(0), value=constant_value))
     single('string', Expect('HplLiteral', token=C(0), value=C(0)))
     fi, outs, _ = callback_outcomes(ctx, 'boolean')
     outs = expand_outcomes(outs)
